@@ -138,6 +138,54 @@ func c20CheckType(c c20Type) engine.Result {
 				}
 			}
 		}
+		// a table of 10 streams behind 300 bytes of program-level descriptors (program_info_length above 255):
+		// query every PID, remove the stream in question, query again, remove a second stream, query again - on
+		// one object (anything the object keeps from the first round of queries would show)
+		{
+			sec := ref.PMTSection{Program: 1, Version: 1, CurrentNext: true, PCRPID: 0x200}
+			for k := 0; k < 2; k++ {
+				b := make([]byte, 148)
+				for j := range b {
+					b[j] = byte(0x0F + j*7) // bytes that read like audio stream entries if the stream loop starts inside
+				}
+				sec.ProgDescs = append(sec.ProgDescs, ref.Desc{Tag: byte(0xE0 + k), Body: b})
+			}
+			others := []byte{0x02, 0x0F, 0x1B, 0x81, 0x06, 0x87, 0x24, 0x03, 0x86, 0x11}
+			for i := 0; i < 10; i++ {
+				t := others[i]
+				if i == 4 {
+					t = code
+				}
+				sec.Streams = append(sec.Streams, ref.Stream{Type: t, PID: 0x200 + (i*7)%10*3})
+			}
+			payload := append(ref.Pointer(0), sec.Bytes()...)
+			if pmt, err := psi.NewPMT(payload); err != nil {
+				res.Failf("NewPMT|error", "10-stream table with 300 bytes of program info: %v", err)
+			} else {
+				gone := map[int]bool{}
+				round := func(when string) {
+					if n := len(pmt.ElementaryStreams()); n != 10-len(gone) {
+						res.Failf("PMT|ten-streams|stream-count", "%s: %d streams, want %d", when, n, 10-len(gone))
+					}
+					for i, st := range sec.Streams {
+						want := !gone[st.PID] && c20Lags[st.Type]
+						if got := pmt.IsPidForStreamWherePresentationLagsEbp(st.PID); got != want {
+							res.Failf("PMT|IsPidForStreamWherePresentationLagsEbp|ten-streams", "%s: stream %d type %#x pid %#x: got %v want %v", when, i, st.Type, st.PID, got, want)
+						}
+						if got := pmt.PIDExists(st.PID); got == gone[st.PID] {
+							res.Failf("PMT|PIDExists|ten-streams", "%s: pid %#x: PIDExists=%v", when, st.PID, got)
+						}
+					}
+				}
+				round("fresh")
+				gone[sec.Streams[4].PID] = true
+				pmt.RemoveElementaryStreams([]int{sec.Streams[4].PID})
+				round("after removing the stream in question")
+				gone[sec.Streams[1].PID], gone[sec.Streams[9].PID] = true, true
+				pmt.RemoveElementaryStreams([]int{sec.Streams[9].PID, sec.Streams[1].PID})
+				round("after removing two more streams")
+			}
+		}
 		// the classification depends on the stream_type alone: the same code next to a descriptor of every
 		// tag (directly constructed and decoded from a PMT)
 		for tag := 0; tag < 256; tag++ {
@@ -578,7 +626,7 @@ func init() {
 		Scenarios: []engine.ScenarioRunner{
 			&engine.Enum[c20Type]{
 				Name: "stream-types",
-				Rule: "all 256 stream_type codes through LookupPmtStreamType, NewPmtElementaryStream and a decoded 3-stream PMT (code at each position, the three PIDs in each of the 6 orders, on ordinary PIDs and on PIDs 0x1FFD..0x1FFF; the PMT-level query also after query/remove/query histories on one object, after removals from two tables with one shared PID list, behind a stream carrying 300 bytes of descriptors, and for a table that follows another program map section in the same payload), and each code next to a descriptor of every one of the 256 tags (constructed and decoded); every code is a distinct non-trivial case",
+				Rule: "all 256 stream_type codes through LookupPmtStreamType, NewPmtElementaryStream and a decoded 3-stream PMT (code at each position, the three PIDs in each of the 6 orders, on ordinary PIDs and on PIDs 0x1FFD..0x1FFF; the PMT-level query also after query/remove/query histories on one object, after removals from two tables with one shared PID list, behind a stream carrying 300 bytes of descriptors, for a table that follows another program map section in the same payload, and for a 10-stream table behind 300 bytes of program-level descriptors with query / remove / query / remove / query on one object), and each code next to a descriptor of every one of the 256 tags (constructed and decoded); every code is a distinct non-trivial case",
 				Gen: func(r *engine.Run, emit func(c20Type)) {
 					for c := 0; c < 256; c++ {
 						emit(c20Type{c})
